@@ -59,7 +59,7 @@ REPO_MARK = "/lsst/daf/relation/"
 
 
 class Entry:
-    __slots__ = ("rel", "mv", "op", "parents", "alias", "taint", "idx", "events", "evaluated", "all_bag_det")
+    __slots__ = ("rel", "mv", "op", "parents", "alias", "taint", "idx", "events", "evaluated", "all_bag_det", "lid")
 
     def __init__(self, rel, mv, op, parents, alias=False):
         self.rel = rel
@@ -70,6 +70,7 @@ class Entry:
         self.taint = set()
         self.events = set()
         self.evaluated = False
+        self.lid = None
         self.all_bag_det = bool(mv.bag_det) and all(p.all_bag_det for p in parents)
         for p in parents:
             self.taint |= p.taint
@@ -405,6 +406,31 @@ class Run(ExtraOps):
             if rel.is_join_identity and not (m == 1 and not ent.mv.cols):
                 self.violate("flags_wrong", {"is_join_identity": True, "model_count": m}, entry=ent)
 
+    def hist_live_leaf_ids(self, ent):
+        """Leaves an evaluation of this entry may read according to its *history*: nothing upstream of a
+        materialization whose node already holds its payload (whatever the library's tree looks like now)."""
+        out = set()
+        seen = set()
+        stack = [ent]
+        while stack:
+            e = stack.pop()
+            if id(e) in seen:
+                continue
+            seen.add(id(e))
+            if e.lid is not None:
+                out.add(e.lid)
+                continue
+            if e.op["k"] == "mat" and not e.alias:
+                node = next((n for n in walk(e.rel) if isinstance(n, Materialization)), None)
+                reg = self.mat_entries.get(getattr(node, "name", None))
+                if node is not None and reg is e and node.payload is not None:
+                    p = node.payload
+                    if isinstance(p, SimRows):
+                        out.add(p.lid)
+                    continue
+            stack.extend(e.parents)
+        return out
+
     def eval_and_check(self, ent, op=None):
         """Full evaluation of one entry + comparison with the model."""
         w = self.w
@@ -412,6 +438,8 @@ class Run(ExtraOps):
         self.stats["evaluations"] += 1
         sqlroot = isinstance(ent.rel.engine, sql.Engine)
         allowed = live_leaf_ids(ent.rel)
+        if self.profile.track_payloads:
+            allowed &= self.hist_live_leaf_ids(ent) | {lid for lid in allowed if lid not in self.w.leaves}
         starts0 = self.leaf_starts()
         ncalls = len(w.processor.calls)
         mat_before = {n.name: w.token(n.payload) for n in walk(ent.rel) if isinstance(n, Materialization)}
@@ -488,13 +516,26 @@ class Run(ExtraOps):
             rows = []
         elif special == "identity":
             cols, rows = [], [[]]
+        name = None
+        eng = op["eng"]
+        if op.get("redeclare") is not None and self.w.leaves and not special:
+            # a second leaf with the same engine, columns and name as an earlier one (the two compare equal and hash
+            # equally - LeafRelation equality ignores payload and row bounds) but with its own rows and bounds
+            olds = [i for i in sorted(self.w.leaves) if self.w.leaves[i]["engine"] == eng or True]
+            o = self.w.leaves[olds[op["redeclare"] % len(olds)]]
+            eng, cols, name = o["engine"], list(o["cols"]), o["rel_name"]
+            rows = [[(r[j % len(r)] if r else 0) for j in range(len(cols))] for r in rows] if cols else [[] for _ in rows]
+            self.probes["leaf_redeclared"] += 1
         self.w.fault.suspended = True       # creating the environment is not part of the system under test
         try:
-            rel = self.w.make_leaf(lid, op["eng"], cols, rows, op.get("bounds", "exact"), op.get("payload", "simrows"), special)
+            rel = self.w.make_leaf(lid, eng, cols, rows, op.get("bounds", "exact"), op.get("payload", "simrows"), special, name=name)
         finally:
             self.w.fault.suspended = False
+        self.w.leaves[lid]["rel_name"] = name or f"L{lid}"
+        op = {**op, "eng": eng}
         mv = M.m_leaf(lid, op["eng"], cols, rows)
         ent = Entry(rel, mv, op, [])
+        ent.lid = lid
         self.pool.append(ent)
         self.logev(self.w.op_index, "leaf", str(rel), cols, rows)
         self.check_new(ent, op, [])
@@ -680,6 +721,11 @@ class Run(ExtraOps):
                 j = Join(pred if pred is not None else Predicate.literal(True), frozenset(),
                          frozenset(tags[c] for c in op["cmax"]))
                 return j.partial(r.rel).apply(l.rel, **kw)
+            if op.get("direct"):
+                from lsst.daf.relation import Join, Predicate
+
+                # the binary entry point, common columns left for the library to resolve
+                return (Join(pred) if pred is not None else Join()).apply(l.rel, r.rel)
             if op.get("cc"):
                 from lsst.daf.relation import Join, Predicate
 
